@@ -367,6 +367,14 @@ impl Check for C21 {
     fn required_counters(&self) -> Vec<&'static str> {
         vec!["eq_pairs_checked", "equal_pairs_hash_checked", "terms_checked_list_ops", "displays_checked", "extends_checked", "proper_improper_twins_checked", "out_of_range_index_panics_like_vec", "extend_on_non_list_panics"]
     }
+    fn miri_lane(&self, tier: Tier) -> Option<(Vec<(&'static str, u64, u64)>, bool)> {
+        // thorough only: the same run_case code interpreted by Miri (Rc::make_mut / copy-on-write paths)
+        if tier == Tier::Thorough {
+            Some((vec![("random", 0, 32), ("pairs", 136, 2)], false))
+        } else {
+            None
+        }
+    }
     fn run_case(&self, gen: &str, seed: u64, index: u64, _tier: Tier) -> CaseOut {
         let mut out = CaseOut::default();
         let mut cx = Ctx::new();
